@@ -1,8 +1,12 @@
 (* Driver for the extracted LuaCore.
    Case file: one case per line,  <mode> TAB <fuel> TAB <hex of Lua source>
-     mode run : prints  RUN <final> <n> <hex trace line>...     n = number of printed lines
+     mode run53 | runjit | run (= run53):
+                prints  RUN <final> <n> <hex trace line>...     n = number of printed lines
                 final = done | error:<hex msg> | fuel | unsupported:<hex> | loaderr:<hex>
-     mode wf  : prints  WF ok | WF bad:<hex reason>
+     mode wf53 | wfjit | wf (= wf53):
+                prints  WF ok | WF bad:<hex reason>
+     The suffix selects the dialect: 53 = Lua 5.3 (the project's reference semantics), jit = LuaJIT 2.x /
+     Lua 5.1 rules.
    Strings are hex-encoded, "-" is the empty string.
    Deep recursion: run it with an unlimited stack (tools/lua_run.py does). *)
 open Luamodel
@@ -46,8 +50,9 @@ let () =
       (match split_tabs line with
        | [mode; fuel; src] ->
          let src = chars_of_string (unhex src) in
-         if mode = "run" then begin
-           let o = run (nat_of_int (int_of_string fuel)) src in
+         let dialect_of m = if String.length m >= 3 && String.sub m (String.length m - 3) 3 = "jit" then LuaJIT else Lua53 in
+         if mode = "run" || mode = "run53" || mode = "runjit" then begin
+           let o = run (dialect_of mode) (nat_of_int (int_of_string fuel)) src in
            let fin = match o.o_final with
              | FDone -> "done"
              | FError m -> "error:" ^ hex_of_chars m
@@ -58,8 +63,8 @@ let () =
            Buffer.add_string b (Printf.sprintf "RUN %s %d" fin (List.length o.o_trace));
            List.iter (fun l -> Buffer.add_char b ' '; Buffer.add_string b (hex_of_chars l)) o.o_trace;
            print_endline (Buffer.contents b)
-         end else if mode = "wf" then begin
-           match lua_wf src with
+         end else if mode = "wf" || mode = "wf53" || mode = "wfjit" then begin
+           match lua_wf (dialect_of mode) src with
            | WfOk -> print_endline "WF ok"
            | WfBad r -> print_endline ("WF bad:" ^ hex_of_chars r)
          end else print_endline "BADMODE"
